@@ -31,6 +31,7 @@ func atoi(s string) int {
 var mains = map[string]func(map[string]string){
 	"c01": c01Main,
 	"c04": c04Main,
+	"c05": c05Main,
 }
 
 var startAt int // first case index the worker executes
